@@ -2,9 +2,10 @@ SPECIFICATION Spec
 CONSTANTS
   MaxN = 6
   MaxP = 2
-  ProcSeqs <- Procs2
-  ExpSeqs <- Exps2
+  ProcSeqs <- Procs1
+  ExpSeqs <- Exps1
   WithConn = TRUE
+  UndeclSet <- B
 INVARIANT TypeOK
 INVARIANT EqualAtDelivery
 INVARIANT AllInvoked
